@@ -25,16 +25,18 @@ def main():
     if a.replay:
         case = json.load(open(a.replay))
         if not a.no_build:
-            ctx.build(getattr(mod, 'GROUPS', ()))
+            ctx.build(getattr(mod, 'GROUPS', ()), getattr(mod, 'EXTRA_PROPS', ()))
         common.init_jax()
         ok = mod.replay(ctx, case)
         print("REPLAY", "property holds on this case" if ok else "property FAILS on this case")
         sys.exit(0 if ok else 1)
     try:
-        built = True if a.no_build else ctx.build(getattr(mod, 'GROUPS', ()))
+        built = True if a.no_build else ctx.build(getattr(mod, 'GROUPS', ()), getattr(mod, 'EXTRA_PROPS', ()))
         ctx.scan_forbidden()
         if built:
             ctx.theorems()
+            for extra in getattr(mod, 'EXTRA_PROPS', ()):  # further property files that count for this property
+                ctx.theorems(extra)
         common.init_jax()
         if built:
             mod.run(ctx)
